@@ -381,6 +381,14 @@ func (w *World) registerIntrinsics() {
 	I["fmt.Sprintf"] = func(e *Exec, fn *ssa.Function, a []Value) Value {
 		return e.sprintf(str(a[0]), a[1].(*SliceVal), nil)
 	}
+	I["fmt.Fprintf"] = func(e *Exec, fn *ssa.Function, a []Value) Value {
+		msg := e.sprintf(str(a[1]), a[2].(*SliceVal), nil)
+		r := e.invoke(a[0], "Write", &BytesVal{s: msg})
+		if tv, ok := r.(*TupleVal); ok {
+			return tv
+		}
+		return tuple(mkLen(msg), nilIface)
+	}
 	I["fmt.Sprint"] = func(e *Exec, fn *ssa.Function, a []Value) Value {
 		var parts []*Term
 		for _, x := range e.sliceElems(a[0].(*SliceVal)) {
